@@ -68,6 +68,7 @@ Fix(e) ==
                            third |-> e.third, pacc |-> SeqToSet(e.pacc), shared |-> e.shared]
     [] e.op = "rt"     -> [op |-> "rt", S |-> SeqToSet(e.S)]
     [] e.op = "upd"    -> [op |-> "upd", via |-> e.via, S |-> SeqToSet(e.S), old |-> SeqToSet(e.old)]
+    [] e.op = "open"   -> [op |-> "open", S |-> SeqToSet(e.S), racc |-> SeqToSet(e.racc)]
     [] e.op = "multi"  -> [op |-> "multi", kind |-> e.kind, edit |-> e.edit, n |-> e.n, k |-> e.k, a0 |-> SeqToSet(e.a0),
                            a1 |-> SeqToSet(e.a1), ban |-> e.ban, via |-> e.via, want |-> SeqToSet(e.want)]
     [] OTHER -> [op |-> "unknown"]
@@ -99,21 +100,22 @@ HandleProblems(e, s, mrep, mfx, mnm) ==
              THEN <<P("DRIFT", "C05", "display name differs from the model: " \o e.name, d)>> ELSE <<>>)
   ELSE
        (IF all /\ refused THEN <<P("VIOL", "C05", "refused-with-privilege", d)>> ELSE <<>>)
-       \o (IF none /\ ~isErr THEN <<P("VIOL", "C05", "no-error-reply-without-privilege", d)>> ELSE <<>>)
+       \o (IF none /\ ~isErr /\ ~(r.sp = "ghost" /\ e.reply = "none")   \* (an unresolvable target may go unanswered)
+              THEN <<P("VIOL", "C05", "no-error-reply-without-privilege", d)>> ELSE <<>>)
        \o (IF none /\ ~(changed \subseteq allowed)
                THEN <<P("VIOL", "C05", "effect-without-privilege", [d EXCEPT !.changed = changed \ allowed])>> ELSE <<>>)
        \o (IF none /\ e.nrep > 1 THEN <<P("VIOL", "C05", "several-replies-to-refused-request", d)>> ELSE <<>>)
-       \o (IF all /\ isErr /\ ~refused /\ EffOf(r) # {} /\ r.sp # "occupied" THEN <<P("DRIFT", "C05", "request failed for another reason", d)>> ELSE <<>>)
+       \o (IF all /\ isErr /\ ~refused /\ EffOf(r) # {} /\ r.sp \notin {"occupied", "ghost"} THEN <<P("DRIFT", "C05", "request failed for another reason", d)>> ELSE <<>>)
        (* the requester holds the privilege of every reading and the request is well-formed: "with it the request is
           never refused" - a closed connection, no reply, or a reply without the effect is a refusal in all but name.
           (The delayed disconnect is awaited with a bound: its absence alone is timing, hence drift.) *)
-       \o (IF all /\ e.reply = "closed" /\ EffOf(r) # {} /\ r.sp # "occupied"
+       \o (IF all /\ e.reply = "closed" /\ EffOf(r) # {} /\ r.sp \notin {"occupied", "ghost"}
                THEN <<P("VIOL", "C05", "permitted-request-not-executed", d)>> ELSE <<>>)
-       \o (IF all /\ e.reply = "closed" /\ ~(EffOf(r) # {} /\ r.sp # "occupied")
+       \o (IF all /\ e.reply = "closed" /\ ~(EffOf(r) # {} /\ r.sp \notin {"occupied", "ghost"})
                THEN <<P("DRIFT", "C05", "connection closed instead of a reply", d)>> ELSE <<>>)
-       \o (IF all /\ ~isErr /\ e.reply # "closed" /\ r.sp # "occupied" /\ ~((expect \ {"closed"}) \subseteq changed)
+       \o (IF all /\ ~isErr /\ e.reply # "closed" /\ r.sp \notin {"occupied", "ghost"} /\ ~((expect \ {"closed"}) \subseteq changed)
                THEN <<P("VIOL", "C05", "permitted-request-not-executed", [d EXCEPT !.changed = expect \ changed])>> ELSE <<>>)
-       \o (IF all /\ ~isErr /\ e.reply # "closed" /\ r.sp # "occupied" /\ (expect \ {"closed"}) \subseteq changed /\ ~(expect \subseteq changed)
+       \o (IF all /\ ~isErr /\ e.reply # "closed" /\ r.sp \notin {"occupied", "ghost"} /\ (expect \ {"closed"}) \subseteq changed /\ ~(expect \subseteq changed)
                THEN <<P("DRIFT", "C05", "expected disconnect not observed within the bound", [d EXCEPT !.changed = expect \ changed])>> ELSE <<>>)
        \o (IF (all /\ mrep # "ok") \/ (none /\ mrep # "refused")
                THEN <<P("DRIFT", "C05", "model and readings disagree", d)>> ELSE <<>>)
@@ -206,6 +208,30 @@ RtProblems(e, s) ==
       ELSE <<>>)
   \o (IF ToBytes(S) # e.bytes THEN <<P("DRIFT", "C16", "script bytes are not ToBytes(S)", [b |-> e.bytes])>> ELSE <<>>)
 
+(* an account editor opens, lists and re-saves an account: gwire / lwire = the access field of the Get User reply /
+   of the account's entry in the List Users reply; saved = the editor (holding 17) sent Set User with the bytes it
+   received; mem / disk = the account afterwards in the running / a freshly loaded account manager *)
+OpenProblems(e, s) ==
+  LET S == s.S
+      SD == S \cap Defined
+      gW == IF Len(e.gwire) = 8 THEN FromBytes(e.gwire) ELSE {-1}
+      lW == IF Len(e.lwire) = 8 THEN FromBytes(e.lwire) ELSE {-1}
+      mS == IF Len(e.mem) = 8 THEN FromBytes(e.mem) ELSE {-1}
+      dS == IF Len(e.disk) = 8 THEN FromBytes(e.disk) ELSE {-1}
+      V(what, got, want) == IF got # want THEN <<P("VIOL", "C16", what, Diff(got, want))>> ELSE <<>>
+      D(what, got, want) == IF got # want THEN <<P("DRIFT", "C16", what, Diff(got, want))>> ELSE <<>>
+  IN
+  IF e.greply # "ok" \/ e.lreply # "ok" \/ (e.saved /\ e.sreply # "ok")
+    THEN <<P("DRIFT", "C16", "the account editor's requests did not run as intended", [g |-> e.greply, l |-> e.lreply, s |-> e.sreply])>>
+    ELSE V("getuser-wire", gW \cap Defined, SD)            \* the bytes sent to an editing client = the stored privileges
+         \o V("listusers-wire", lW \cap Defined, SD)
+         \o V(IF e.saved THEN "open-save-roundtrip-memory" ELSE "account-after-open-memory", mS \cap Defined, SD)
+         \o V(IF e.saved THEN "open-save-roundtrip-file" ELSE "account-after-open-file", dS, SD)
+         \o D("undefined bits in the Get User reply", gW \ Defined, S \ Defined)
+         \o D("undefined bits in the List Users reply", lW \ Defined, S \ Defined)
+         \o (IF e.saved # (17 \in s.racc) THEN <<P("DRIFT", "C16", "save step", [saved |-> e.saved])>> ELSE <<>>)
+         \o (IF ToBytes(S) # e.bytes THEN <<P("DRIFT", "C16", "script bytes are not ToBytes(S)", [b |-> e.bytes])>> ELSE <<>>)
+
 (* several sessions of one account, the account is edited, then session k is kicked / creates an account.
    sclosed: per session, whether its connection was closed; banned: the target session's address is in the re-loaded
    ban file; mem / disk as for create; editreply: the administrator's reply to the edit. *)
@@ -284,6 +310,7 @@ ApplyEv ==
                               [] s.op = "rt"     -> RtProblems(e, s)
                               [] s.op = "upd"    -> UpdProblems(e, s)
                               [] s.op = "multi"  -> MultiProblems(e, s, rep', accts')
+                              [] s.op = "open"   -> OpenProblems(e, s)
                IN \A i \in DOMAIN probs : Report(probs[i], e)
   /\ ph' = "reset" /\ l' = l + 1
   /\ TLCSet(1, l')
